@@ -20,7 +20,7 @@ Not decided: bit-level equality of repeated runs, behaviour of user-supplied
 scalers/estimators/metrics.
 """
 from .. import protocols
-from ..harness import arr, extobj, index, integer, scalar
+from ..harness import pyval, arr, extobj, index, integer, scalar
 from .. import tq
 from ..interp import State
 from ..terms import FRESH, T, Term
@@ -269,7 +269,34 @@ def _reset(ctx, N):
     cases.append(("SparseKDE", "skmatter.neighbors.SparseKDE", {"descriptors": arr("descriptors", "D", "F"), "weights": arr("weights", "D")}, ((arr("grid1", "G1", "F"),), {}), ((arr("grid", "G", "F"),), {}), []))
     cases.append(("QuickShift", "skmatter.clustering.QuickShift", {"dist_cutoff_sq": arr("cutoffs", "N")}, ((arr("X1", "N1", "F"),), {"samples_weight": arr("w1", "N1")}), ((arr("X", "N", "F"),), {"samples_weight": arr("w", "N")}), []))
     cases.append(("DirectionalConvexHull", "skmatter.sample_selection.DirectionalConvexHull", {}, ((arr("X1", "N1", "M1"), arr("y1", "N1")), {}), ((arr("X", "N", "M"), arr("y", "N")), {}), []))
-    for name, cls, ctor, A, B, order in cases:
+    # the same histories with a hyper-parameter changed (set_params) between the two fits: what the
+    # second fit leaves behind is what a fresh object with the new parameters would hold
+    X1y1 = ((arr("X1", "N1", "M1"), arr("y1", "N1", "P1")), {})
+    Xy = ((arr("X", "N", "M"), arr("y", "N", "P")), {})
+    for flag in ("with_std", "with_mean", "column_wise"):
+        for first in (True, False):
+            cases.append((f"StandardFlexibleScaler: {flag}={first} then {not first}", "skmatter.preprocessing.StandardFlexibleScaler", {flag: first}, ((arr("X1", "N1", "M1"),), {}), ((arr("X", "N", "M"),), {}), [], {flag: not first}))
+    for flag in ("with_center", "with_trace"):
+        for first in (True, False):
+            cases.append((f"KernelNormalizer: {flag}={first} then {not first}", "skmatter.preprocessing.KernelNormalizer", {flag: first}, ((arr("K1", "N1", "N1"),), {}), ((arr("K", "N", "N"),), {}), [], {flag: not first}))
+            cases.append((f"SparseKernelCenterer: {flag}={first} then {not first}", "skmatter.preprocessing.SparseKernelCenterer", {flag: first}, ((arr("Knm1", "N1", "A1"), arr("Kmm1", "A1", "A1")), {}), ((arr("Knm", "N", "A"), arr("Kmm", "A", "A")), {}), [], {flag: not first}))
+    for s1_, s2_ in (("feature", "sample"), ("sample", "feature")):
+        cases.append((f"PCovR: space={s1_} then {s2_}", "skmatter.decomposition.PCovR", {"mixing": scalar("alpha", 0, 1), "space": s1_, "n_components": integer("K"), "svd_solver": "full"}, ((arr("X1", "N1", "M1"), arr("Y1", "N1", "P1")), {}), ((arr("X", "N", "M"), arr("Y", "N", "P")), {}), [("K", "<=", "N"), ("K", "<=", "M")], {"space": s2_}))
+    for c1_ in (True, False):
+        cases.append((f"KernelPCovR: center={c1_} then {not c1_}", "skmatter.decomposition.KernelPCovR", {"mixing": scalar("alpha", 0, 1), "n_components": integer("K"), "svd_solver": "full", "center": c1_}, ((arr("X1", "N1", "M1"), arr("Y1", "N1", "P1")), {}), ((arr("X", "N", "M"), arr("Y", "N", "P")), {}), [("K", "<=", "N")], {"center": not c1_}))
+    for p1_ in (True, False):
+        cases.append((f"OrthogonalRegression: projector={p1_} then {not p1_}", "skmatter.linear_model.OrthogonalRegression", {"use_orthogonal_projector": p1_}, X1y1, Xy, [("M", "<", "P"), ("M1", "<", "P1")], {"use_orthogonal_projector": not p1_}))
+    for m1_, m2_ in (("tikhonov", "cutoff"), ("cutoff", "tikhonov")):
+        cases.append((f"Ridge2FoldCV: {m1_} then {m2_}", "skmatter.linear_model.Ridge2FoldCV", {"alphas": arr("alphas", "G"), "regularization_method": m1_}, X1y1, Xy, [], {"regularization_method": m2_}))
+    cases.append(("QuickShift: cut-off then Gabriel shells", "skmatter.clustering.QuickShift", {"dist_cutoff_sq": arr("cutoffs", "N1")}, ((arr("X1", "N1", "F"),), {"samples_weight": arr("w1", "N1")}), ((arr("X", "N", "F"),), {"samples_weight": arr("w", "N")}), [], {"dist_cutoff_sq": None, "gabriel_shell": integer("shell")}))
+    cases.append(("QuickShift: Gabriel shells then cut-off", "skmatter.clustering.QuickShift", {"gabriel_shell": integer("shell")}, ((arr("X1", "N1", "F"),), {"samples_weight": arr("w1", "N1")}), ((arr("X", "N", "F"),), {"samples_weight": arr("w", "N")}), [], {"dist_cutoff_sq": arr("cutoffs", "N"), "gabriel_shell": None}))
+    for pkg, S in (("feature", "M"), ("sample", "N")):
+        for r1_, r2_ in ((1, 0), (0, 1)):
+            cases.append((f"{pkg}.CUR: recompute_every={r1_} then {r2_}", f"skmatter.{pkg}_selection.CUR", {"n_to_select": integer("S"), "recompute_every": r1_}, X1y1, Xy, [("S", "<=", S)], {"recompute_every": r2_}))
+        cases.append((f"{pkg}.FPS: threshold then none", f"skmatter.{pkg}_selection.FPS", {"n_to_select": integer("S"), "score_threshold": scalar("thr"), "score_threshold_type": "relative"}, X1y1, Xy, [("S", "<=", S)], {"score_threshold": None}))
+    for case in cases:
+        name, cls, ctor, A, B, order = case[:6]
+        change = case[6] if len(case) > 6 else {}
         cfg = dict(call_hook=protocols.fold_hook) if "Ridge2Fold" in cls else {}
         I1 = ctx.interp(order=order, assume=protocols.assume_default, **cfg)
         s1 = State()
@@ -281,17 +308,21 @@ def _reset(ctx, N):
                 ctx.call_method(I1, s1, o1, meth, *mk())
             except Exception:
                 pass
+        for k_, v_ in change.items():
+            s1.heap[o1.obj.id][k_] = pyval(v_)  # set_params between the fits
         ctx.call_method(I1, s1, o1, "fit", *B[0], **B[1])
         I2 = ctx.interp(order=order, assume=protocols.assume_default, **cfg)
         s2 = State()
-        o2 = ctx.construct(I2, s2, cls, **ctor)
+        o2 = ctx.construct(I2, s2, cls, **dict(ctor, **change))
         ctx.call_method(I2, s2, o2, "fit", *B[0], **B[1])
         h1, h2 = s1.heap[o1.obj.id], s2.heap[o2.obj.id]
         live1 = {k for k, v in h1.items() if v.kind != "undef"}
         live2 = {k for k, v in h2.items() if v.kind != "undef"}
         c = P.cls(cls)
         site = ctx.site(P.method(c, "fit"))
-        stale = sorted(live1 - live2)
+        # after set_params an attribute of the earlier configuration may legitimately survive (sklearn
+        # convention: fit does not delete); what the new configuration defines must be fresh
+        stale = sorted(live1 - live2) if not change else []
         missing = sorted(live2 - live1)
         ctx.ob("R-RESET", f"{name}: attribute set after refit == fresh fit", not stale and not missing, f"stale after refit: {stale}; missing after refit: {missing}" if (stale or missing) else f"{len(live2)} attributes", site, name)
         A_syms = {"X1", "y1", "Y1", "w1", "K1", "Knm1", "Kmm1", "grid1"}
